@@ -1,5 +1,258 @@
 package main
 
+import (
+	"bufio"
+	"encoding/json"
+	"fmt"
+	"os"
+	"os/exec"
+	"path/filepath"
+	"regexp"
+	"sort"
+	"strconv"
+	"strings"
+	"sync"
+	"time"
+)
+
 func selftest(workers int) int { return 0 }
 
-func raceCheck(sp *spec, tier string, seed uint64, budget float64) int { return 0 }
+// raceCheck is engine R (C20): the unmodified repository under testing/synctest and the Go
+// race detector (go1.26.8), seeded workload and faults.
+func raceCheck(sp *spec, tier string, envSeed uint64, budget float64) int {
+	if budget == 0 {
+		budget = 40
+		if tier == "thorough" {
+			budget = 1200
+		}
+	}
+	t0 := time.Now()
+	base := os.Getenv("VERIF_SCRATCH")
+	if base == "" {
+		base = os.TempDir()
+	}
+	dir, err := os.MkdirTemp(base, "verif-race-")
+	if err != nil {
+		infra("scratch: %v", err)
+	}
+	defer os.RemoveAll(dir)
+	repo := os.Getenv("VERIF_REPO")
+	if repo == "" {
+		repo = "/repo"
+	}
+	if out, err := exec.Command("rsync", "-a", "--exclude=.git/", "--exclude=*_test.go", repo+"/", dir+"/raft/").CombinedOutput(); err != nil {
+		infra("copy: %v %s", err, out)
+	}
+	mod, err := os.ReadFile(filepath.Join(verifDir, "race", "go.mod"))
+	if err != nil {
+		infra("%v", err)
+	}
+	os.WriteFile(filepath.Join(dir, "r.mod"), []byte(strings.Replace(string(mod), "/verif/.build/dev/raft", dir+"/raft", 1)), 0o644)
+	sum, _ := os.ReadFile(filepath.Join(repo, "go.sum"))
+	os.WriteFile(filepath.Join(dir, "r.sum"), sum, 0o644)
+	bin := filepath.Join(dir, "race.test")
+	build := exec.Command("go1.26.8", "test", "-c", "-race", "-modfile="+filepath.Join(dir, "r.mod"), "-o", bin, ".")
+	build.Dir = filepath.Join(verifDir, "race")
+	build.Env = append(os.Environ(), "GOFLAGS=-mod=mod", "GOPROXY=off", "GOSUMDB=off", "GOTOOLCHAIN=local")
+	if out, err := build.CombinedOutput(); err != nil {
+		infra("building the race test binary failed: %v\n%s", err, out)
+	}
+	fmt.Printf("simcheck C20 tier=%s VERIF_SEED=%d budget=%.0fs (build %.1fs)\n", tier, envSeed, budget, time.Since(t0).Seconds())
+	data := "/dev/shm"
+	if _, err := os.Stat(data); err != nil {
+		data = dir
+	}
+	procs := 8
+	var mu sync.Mutex
+	var wg sync.WaitGroup
+	seedsRun, nontrivial := 0, 0
+	totals := map[string]int64{}
+	var samples []string
+	reports := map[string]string{} // signature -> first report
+	repSeed := map[string]string{}
+	var infraMsg string
+	baseSeed := int64(propertySeed("C20", envSeed))
+	for p := 0; p < procs; p++ {
+		wg.Add(1)
+		go func(p int) {
+			defer wg.Done()
+			cmd := exec.Command(bin, "-test.run", "TestRace", "-test.timeout", "0", "-seed", strconv.FormatInt(baseSeed+int64(p)*100000, 10),
+				"-seeds", "1000000", "-budget", fmt.Sprintf("%.0fs", budget), "-dir", filepath.Join(data, filepath.Base(dir), fmt.Sprintf("p%d", p)))
+			cmd.Env = append(os.Environ(), "GORACE=halt_on_error=0 exitcode=0", "GOMAXPROCS=4")
+			pr, _ := cmd.StdoutPipe()
+			cmd.Stderr = cmd.Stdout
+			if err := cmd.Start(); err != nil {
+				mu.Lock()
+				infraMsg = err.Error()
+				mu.Unlock()
+				return
+			}
+			sc := bufio.NewScanner(pr)
+			sc.Buffer(make([]byte, 1<<20), 1<<26)
+			var block []string
+			inBlock := false
+			lastSeed := "?"
+			flush := func() {
+				if len(block) == 0 {
+					return
+				}
+				text := strings.Join(block, "\n")
+				if sig := raceSignature(block); sig != "" {
+					mu.Lock()
+					if _, ok := reports[sig]; !ok {
+						reports[sig] = text
+						repSeed[sig] = lastSeed
+					}
+					mu.Unlock()
+				}
+				block = nil
+			}
+			for sc.Scan() {
+				line := sc.Text()
+				switch {
+				case strings.HasPrefix(line, "WARNING: DATA RACE"):
+					flush()
+					inBlock = true
+					block = append(block, line)
+				case inBlock && strings.HasPrefix(line, "=================="):
+					if len(block) > 1 {
+						inBlock = false
+						flush()
+					}
+				case inBlock:
+					block = append(block, line)
+				case strings.HasPrefix(line, "RACE-SEED-DONE"):
+					mu.Lock()
+					seedsRun++
+					kv := map[string]string{}
+					for _, f := range strings.Fields(line)[1:] {
+						if i := strings.IndexByte(f, '='); i > 0 {
+							kv[f[:i]] = f[i+1:]
+						}
+					}
+					lastSeed = kv["seed"]
+					ops, _ := strconv.ParseInt(kv["ops_ok"], 10, 64)
+					stops, _ := strconv.ParseInt(kv["stop_restart_cycles"], 10, 64)
+					for _, k := range []string{"ops_ok", "ops_failed", "leader_sightings", "stop_restart_cycles", "partitions", "membership_ok"} {
+						v, _ := strconv.ParseInt(kv[k], 10, 64)
+						totals[k] += v
+					}
+					if kv["snapshot_threshold"] != "0" {
+						totals["seeds_with_snapshots"]++
+					}
+					if kv["ok"] != "true" {
+						totals["bubbles_panicked"]++
+					}
+					if ops >= 5 && stops >= 1 {
+						nontrivial++
+						if len(samples) < 3 {
+							samples = append(samples, line)
+						}
+					}
+					mu.Unlock()
+				case strings.Contains(line, "panic:") || strings.HasPrefix(line, "FAIL"):
+					mu.Lock()
+					totals["fail_lines"]++
+					if len(samples) < 6 {
+						samples = append(samples, "output: "+line)
+					}
+					mu.Unlock()
+				}
+			}
+			flush()
+			cmd.Wait()
+		}(p)
+	}
+	wg.Wait()
+	os.RemoveAll(filepath.Join(data, filepath.Base(dir)))
+	if infraMsg != "" {
+		infra("%s", infraMsg)
+	}
+	if seedsRun == 0 {
+		infra("no seed completed")
+	}
+	// Verdict.
+	findings := loadFindings()
+	sigs := make([]string, 0, len(reports))
+	for s := range reports {
+		sigs = append(sigs, s)
+	}
+	sort.Strings(sigs)
+	exit := 0
+	var known []string
+	nViol := 0
+	for _, sig := range sigs {
+		v := violation{Property: "C20", Kind: "data-race", Cause: sig, Detail: reports[sig]}
+		if f := matchFinding(findings, v); f != nil {
+			fmt.Printf("KNOWN-FINDING: property=C20 %s [%s]: %s\n", f.ID, sig, f.What)
+			known = append(known, f.ID+" "+sig)
+			continue
+		}
+		nViol++
+		rf := map[string]interface{}{"property": "C20", "profile": "race", "seed": repSeed[sig], "violation": v,
+			"note": "engine R: re-running the seed re-executes the same workload and fault plan; the race report reappears with high probability (happens-before based), not exactly"}
+		os.MkdirAll(filepath.Join(verifDir, "replays"), 0o755)
+		p := filepath.Join(verifDir, "replays", "C20-data-race-"+sanitize(sig)+".json")
+		if len(p) > 200 {
+			p = p[:190] + ".json"
+		}
+		b, _ := json.MarshalIndent(rf, "", " ")
+		os.WriteFile(p, b, 0o644)
+		fmt.Printf("data race %s (first seen at seed %s)\n%s\n", sig, repSeed[sig], reports[sig])
+		fmt.Printf("VIOLATION property=C20 replay=%s\n", p)
+		exit = 1
+	}
+	wall := time.Since(t0).Seconds()
+	if len(samples) == 0 {
+		samples = []string{"no non-trivial seed in this batch"}
+	}
+	ev := map[string]interface{}{
+		"property_id": "C20", "tier": tier, "seed": envSeed, "level": "exploration",
+		"coverage": map[string]interface{}{
+			"evaluations": seedsRun, "distinct_nontrivial": nontrivial,
+			"rule": "one evaluation = one seed = one synctest bubble: 3-5 voters (+0-1 spare), snapshots on in 2/3 of the seeds, 6 client goroutines calling Status/Configuration/SubmitOperation (all types)/AddServer/RemoveServer concurrently, a fault goroutine isolating nodes and doing Stop+Restart cycles, in-memory transport with seeded delays/drops, real files on tmpfs, 40-100 election timeouts of fake time. Non-trivial: >= 5 acknowledged operations and >= 1 Stop+Restart cycle; seeds are distinct by construction (distinct workload and fault plan).",
+			"samples": samples, "totals": totals, "distinct_race_signatures": len(reports), "known_findings_hit": known,
+			"seeds_per_hour": int(float64(seedsRun) / wall * 3600),
+			"components": map[string]string{"raft package": "real code, unmodified, real sync/time (time faked by testing/synctest)", "transport": "stub (in-memory), gRPC compiled but not executed", "disk": "real files on tmpfs", "state machine": "harness list state machine"},
+			"oracle": "Go race detector (go1.26.8 -race), reports deduplicated by the pair of innermost raft frames; only reports with a frame in github.com/jmsadair/raft count",
+		},
+		"assumptions": []string{"which goroutine runs first inside one virtual instant is decided by the Go runtime, not by the seed: a report is a true positive by construction, a miss is possible, and replaying a seed reproduces a report with high probability, not exactly", "the gRPC transport is stubbed"},
+		"wall_s":      wall, "violations": nViol,
+	}
+	os.MkdirAll(filepath.Join(verifDir, "evidence"), 0o755)
+	b, _ := json.MarshalIndent(ev, "", " ")
+	os.WriteFile(filepath.Join(verifDir, "evidence", "C20.json"), b, 0o644)
+	fmt.Printf("C20: %d seeds (%d non-trivial), %d distinct race signatures, %.0fs wall, exit %d\n", seedsRun, nontrivial, len(reports), wall, exit)
+	return exit
+}
+
+var frameRe = regexp.MustCompile(`^\s+(github\.com/jmsadair/raft[^\s(]*)\(`)
+
+// raceSignature: the innermost raft frame of each of the two accesses, sorted.
+func raceSignature(block []string) string {
+	var tops []string
+	expectTop := false
+	for _, l := range block {
+		t := strings.TrimSpace(l)
+		if strings.HasPrefix(t, "Read at") || strings.HasPrefix(t, "Write at") || strings.HasPrefix(t, "Previous read at") || strings.HasPrefix(t, "Previous write at") ||
+			strings.HasPrefix(t, "Atomic") || strings.HasPrefix(t, "Previous atomic") {
+			expectTop = true
+			continue
+		}
+		if strings.HasPrefix(t, "Goroutine ") {
+			expectTop = false
+			continue
+		}
+		if expectTop {
+			if m := frameRe.FindStringSubmatch(l); m != nil {
+				tops = append(tops, strings.TrimPrefix(m[1], "github.com/jmsadair/raft."))
+				expectTop = false
+			}
+		}
+	}
+	if len(tops) == 0 {
+		return ""
+	}
+	sort.Strings(tops)
+	return strings.Join(tops, " vs ")
+}
